@@ -252,6 +252,9 @@ func CheckStreams(w *world.World, o StreamOpts) []world.Violation {
 			if bytes.Equal(exp[j], r) {
 				continue
 			}
+			if alt, ok := c.Spec.ExpectAlt[j]; ok && bytes.Equal(alt, r) {
+				continue
+			}
 			sig := "corrupt"
 			for k := range exp {
 				if k != j && bytes.Equal(exp[k], r) {
